@@ -13,6 +13,7 @@ func main() { Main("C01", c01) }
 var alphabet = []byte{0x7e, 0x7d, 0x01, 0x02, 0x00, 0x41}
 
 func c01(c *Ctx) {
+	defer DrainFrameProblems(c, "C01")
 	c.Rule = "source headers {2013,2019} x {fragmented,not} x {enc bit} x phones x serials (built by an independent frame builder and decoded by the real Decode), reply ids {0, fixed, random}, platform serials {0,1,0x7d,0x7e,0x7d7e,65535,random}; bodies: every length 0..40 and 990..1023, all strings over {7e,7d,01,02,00,41} up to length 4 (5 thorough) at the start / end / middle of a filler, bodies solved for checksum 0x7d / 0x7e, all-7e and all-7d bodies of 1023 bytes, random; non-trivial = body contains a byte that needs escaping or length >= 990 or checksum is special; distinct = distinct request"
 	rng := c.Rng
 	srcs := sources(rng)
